@@ -542,7 +542,11 @@ func TestBlockVerifyReplay(t *testing.T) {
 				probeBefore := s.probe()
 				if a.Kind == "graceful" {
 					if err := s.node.BC.WriteRunningEventFilter(); err != nil {
-						diverge(i, "block-verify:restart:graceful-stop-failed", err.Error(), "ok", err.Error())
+						key := "block-verify:restart:graceful-stop-failed"
+						if strings.Contains(err.Error(), "couldn't initialize the running event filter") {
+							key = "block-verify:rejected-valid:latched-filter-init-error"
+						}
+						diverge(i, key, "graceful stop: "+err.Error(), "ok", err.Error())
 						break steps
 					}
 				}
@@ -724,6 +728,10 @@ func TestBlockVerifyReplay(t *testing.T) {
 				key := fmt.Sprintf("block-verify:%s:%s", tag, a.V)
 				if st.Res.Kind == "accepted" || st.Res.Kind == "verified" {
 					key = fmt.Sprintf("block-verify:rejected-valid:%s:%s", a.Name, a.V)
+					if strings.Contains(outc.Err, "couldn't initialize the running event filter") {
+						// an earlier failure of the lazy filter initialisation is served again
+						key = "block-verify:rejected-valid:latched-filter-init-error"
+					}
 				} else if a.Name != "OfferTampered" {
 					key = fmt.Sprintf("block-verify:accepted:%s:%s", tag, a.V)
 				}
